@@ -176,6 +176,11 @@ def run(chk, prog):
     from . import c20_conv
     n6 = c20_conv.rule_K6(chk, u)
     chk.floor("K6", n6, 4)
+    # ---- K7: provenance of the values the snapshot readers hand on ----------------------------------
+    from . import c20_flow
+    n7, f7 = c20_flow.rule_K7(chk, lib)
+    chk.floor("K7 functions", f7, 2)
+    chk.floor("K7", n7, 2)
     # ---- K3 -----------------------------------------------------------------------------------
     n3 = 0
     seen = set()
